@@ -13,6 +13,21 @@ Theorem C14_set_iterations_audited : length set_iterations = 4%nat.
 Proof. rewrite set_iterations_audited. reflexivity. Qed.
 Print Assumptions C14_set_iterations_audited.
 
+(* no state survives a call except memo slots filled by parameter-free members (generated audit of every assignment / in-place mutation
+   whose target is the receiver of a parameterised member, a class attribute, a module-level name, or an argument of a public function) *)
+Theorem C14_no_parameterised_member_stores_on_its_receiver : receiver_writes_in_parameterised_members = [].
+Proof. exact no_parameterised_member_stores_on_its_receiver. Qed.
+Print Assumptions C14_no_parameterised_member_stores_on_its_receiver.
+
+Theorem C14_no_class_or_module_state_is_written : class_state_writes = [] /\ module_state_writes = [].
+Proof. exact no_class_or_module_state_is_written. Qed.
+Print Assumptions C14_no_class_or_module_state_is_written.
+
+Theorem C14_public_functions_write_only_the_documented_argument :
+  public_argument_writes = [("geometry2d/polygon.py", "Polygon2D", "intersect_polygon_segments", "polygon_list")]%string.
+Proof. exact public_functions_write_only_the_documented_argument. Qed.
+Print Assumptions C14_public_functions_write_only_the_documented_argument.
+
 Theorem C14_sort_after_set_is_order_free : forall l l', Permutation l l' -> isort l = isort l'.
 Proof. exact sort_after_set_is_order_free. Qed.
 Print Assumptions C14_sort_after_set_is_order_free.
